@@ -169,6 +169,31 @@ asn1c_make_identifier(enum ami_flags_e flags, asn1p_expr_t *expr, ...) {
 }
 
 const char *
+asn1c_comment_safe(const char *text) {
+	static char *storage;
+	static size_t storage_size;
+	size_t need = 2 * strlen(text) + 1;
+	char *p;
+
+	if(storage_size < need) {
+		char *tmp = malloc(need);
+		if(!tmp) return "";
+		free(storage);
+		storage = tmp;
+		storage_size = need;
+	}
+
+	for(p = storage; *text; text++) {
+		*p++ = *text;
+		if(text[0] == '*' && text[1] == '/')
+			*p++ = ' ';	/* The comment would end here */
+	}
+	*p = '\0';
+
+	return storage;
+}
+
+const char *
 asn1c_type_name(arg_t *arg, asn1p_expr_t *expr, enum tnfmt _format) {
 	asn1p_expr_t *exprid = 0;
 	asn1p_expr_t *top_parent;
